@@ -760,4 +760,88 @@ def count (s : FSet) (k : Int) : Nat :=
   | none => 0
 end FSet
 
+/-! ### operation languages of flat_map / flat_set (what the driver executes for `reset flat …` cases and
+    what the refinement theorems quantify over) -/
+
+namespace FMap
+/-- at(): the same find_if loop as find; `none` = throws std::out_of_range -/
+def atKey (m : FMap) (k : Int) : Option Int := m.find k
+def size (m : FMap) : Nat := m.st.length
+end FMap
+
+inductive MOp where
+  | index (k : Int)              -- `m[k]` (read through the reference)
+  | assign (k v : Int)           -- `m[k] = v`
+  | insert (k v : Int)           -- `m.insert({k, v})`
+  | emplace (k v : Int)          -- `m.emplace(k, v)`
+  | find (k : Int)
+  | count (k : Int)
+  | at (k : Int)
+  | size
+  | clear
+  | init (l : List (Int × Int))  -- `m = flat_map{…}` (initializer list)
+  deriving Repr
+
+inductive MRet where
+  | unit
+  | val (v : Int)                -- a mapped value
+  | kv (k v : Int)               -- `*it` of the returned iterator
+  | flag (b : Bool) (v : Int)    -- `.second`, `.first->second` of emplace
+  | opt (o : Option Int)         -- find: the mapped value or end()
+  | nat (n : Nat)
+  | throw
+  deriving DecidableEq, Repr
+
+def FMap.step (m : FMap) : MOp → FMap × MRet
+  | .index k => let (m, v) := m.index k; (m, .val v)
+  | .assign k v => (m.assign k v, .unit)
+  | .insert k v => let (m, a, b) := m.insert k v; (m, .kv a b)
+  | .emplace k v => let (m, b, w) := m.emplace k v; (m, .flag b w)
+  | .find k => (m, .opt (m.find k))
+  | .count k => (m, .nat (m.count k))
+  | .at k => (m, match m.atKey k with | some v => .val v | none => .throw)
+  | .size => (m, .nat m.size)
+  | .clear => (⟨[]⟩, .unit)
+  | .init l => (FMap.ofList l ⟨[]⟩, .unit)
+
+def FMap.run : FMap → List MOp → FMap × List MRet
+  | m, [] => (m, [])
+  | m, op :: ops =>
+    let (m1, r) := m.step op
+    let (m2, rs) := FMap.run m1 ops
+    (m2, r :: rs)
+
+inductive SOp where
+  | insert (k : Int)
+  | count (k : Int)
+  | size
+  | clear
+  | iter                         -- `for (it = begin(); it != end(); ++it)`
+  deriving Repr
+
+inductive SRet where
+  | unit
+  | nat (n : Nat)
+  | keys (l : List Int)
+  deriving DecidableEq, Repr
+
+def FSet.step (s : FSet) : SOp → FSet × SRet
+  | .insert k => (s.insert k, .unit)
+  | .count k => (s, .nat (s.count k))
+  | .size => (s, .nat s.st.length)
+  | .clear => (⟨[]⟩, .unit)
+  | .iter => (s, .keys s.st)
+
+def FSet.run : FSet → List SOp → FSet × List SRet
+  | s, [] => (s, [])
+  | s, op :: ops =>
+    let (s1, r) := s.step op
+    let (s2, rs) := FSet.run s1 ops
+    (s2, r :: rs)
+
+/-- first index whose element is not less than `k` (what std::lower_bound returns on a sorted vector) -/
+def lbSpec (k : Int) : List Int → Nat
+  | [] => 0
+  | y :: ys => if y < k then lbSpec k ys + 1 else 0
+
 end Igris.C02
